@@ -155,6 +155,19 @@ def ev3(f, pc):
     raise ValueError(f)
 
 
+def concrete_class(classes, key, v):
+    """table lookup mirrored by the native replay's TableStrategy: (producer, consumer, value) -> (producer, '!!!', value) ->
+    value's own class -> the value itself"""
+    c = classes.get(key + '\x01' + v)
+    if c is not None:
+        return c
+    if '\x02' in key:
+        c = classes.get(key.split('\x02', 1)[0] + '\x02!!!\x01' + v)
+        if c is not None:
+            return c
+    return classes.get(v, v)
+
+
 class SolverStats:
     def __init__(self):
         self.queries = 0
@@ -270,6 +283,15 @@ class Z3Ctx:
         self.terms[t] = r
         return r
 
+    def base_fn(self, u):
+        """class of a whole output of producer u under the configured comparison (independent per producer)"""
+        key = ('B', u)
+        f = self.funcs.get(key)
+        if f is None:
+            f = z3.Function('B%d_%s' % (len(self.funcs), ''.join(c for c in u if c.isalnum())[:20]), self.Out, self.Cls)
+            self.funcs[key] = f
+        return f
+
     def part_fn(self, d):
         """what consumer d looks at: an uninterpreted function of the whole-output class"""
         key = ('G', d)
@@ -292,15 +314,17 @@ class Z3Ctx:
         if k == 'ceq':
             return self.cterm(atom[1]) == self.cterm(atom[2])
         if k == 'Rd':
-            d, a, b = atom[1], atom[2], atom[3]
+            key, a, b = atom[1], atom[2], atom[3]
+            # key = "<producer>\x02<consumer>" (or just "<consumer>"): the comparison may depend on whose output is compared and
+            # on behalf of which consumer; consumer '!!!' = the whole output
+            u, d = key.split('\x02', 1) if '\x02' in key else (None, key)
             if self.classes is not None and a[0] == 'lit' and b[0] == 'lit':
-                ca = self.classes.get(d + '\x01' + a[1], self.classes.get(a[1], a[1]))
-                cb = self.classes.get(d + '\x01' + b[1], self.classes.get(b[1], b[1]))
-                return z3.BoolVal(ca == cb)
+                return z3.BoolVal(concrete_class(self.classes, key, a[1]) == concrete_class(self.classes, key, b[1]))
+            base = self.cls if u is None else self.base_fn(u)
             if d == '!!!':
-                return self.cls(self.term(a)) == self.cls(self.term(b))
-            g = self.part_fn(d)
-            return g(self.cls(self.term(a))) == g(self.cls(self.term(b)))
+                return base(self.term(a)) == base(self.term(b))
+            g = self.part_fn(key)
+            return g(base(self.term(a))) == g(base(self.term(b)))
         if k in ('p', 'pe', 'ps', 'present', 'present2', 'b', 'present3', 'kept'):
             return z3.Bool('%s_%s' % (k, '_'.join(str(x) for x in atom[1:])))
         raise rt.Unsupported('atom %r' % (atom,))
